@@ -197,3 +197,46 @@ impl Spill {
         self.metrics.spilled_rows.add(n);
     }
 }
+
+/// record-consistent: a stream that records where a batch leaves (helper `emit`) but forgets one arm
+pub struct Spilly {
+    pub bm: Option<Bm>,
+    pub spill: Box<dyn Stream>,
+}
+impl Spilly {
+    fn emit(&self, b: Batch) -> Poll<Option<Batch>> {
+        let b = match &self.bm {
+            Some(m) => b.record_output(m),
+            None => b,
+        };
+        Poll::Ready(Some(b))
+    }
+    /// seeded: the second arm hands out the batch of the spill stream unrecorded
+    pub fn bad_poll_inner(&mut self, from_memory: bool) -> Poll<Option<Batch>> {
+        if from_memory {
+            match produce() {
+                Some(b) => return self.emit(b),
+                None => return Poll::Ready(None),
+            }
+        }
+        match self.spill.poll_next() {
+            Poll::Ready(Some(b)) => Poll::Ready(Some(b)),
+            Poll::Ready(None) => Poll::Ready(None),
+            Poll::Pending => Poll::Pending,
+        }
+    }
+    /// negative: both arms go through emit
+    pub fn good_poll_inner(&mut self, from_memory: bool) -> Poll<Option<Batch>> {
+        if from_memory {
+            match produce() {
+                Some(b) => return self.emit(b),
+                None => return Poll::Ready(None),
+            }
+        }
+        match self.spill.poll_next() {
+            Poll::Ready(Some(b)) => self.emit(b),
+            Poll::Ready(None) => Poll::Ready(None),
+            Poll::Pending => Poll::Pending,
+        }
+    }
+}
